@@ -9,11 +9,14 @@ B2  sampled cases are emitted with their admissible set; each is concretised as 
     exact NF) + a two-ROADM, two-span line with the judged amplifier as booster / inline / preamp, and designed by the
     real designed_network; the chosen model must be admissible.  The same line is designed a second time with the
     library turned into variable-gain models and both designs are judged by Trace_AmpSelection with the implementation's
-    own edfa_nf as the noise figure.
+    own edfa_nf as the noise figure.  The catalogue includes a model whose band EQUALS the design band (edges coincide),
+    a quiet Raman model whose p_max is below the required power, and fibres whose per-frequency loss coefficient is
+    above the Raman limit on part of the band only; cases without any capable model are sampled four times sparser.
 B3  every select_edfa call made while designing the shipped networks (as shipped and with every amplifier turned into
     a placeholder), both modes, is recorded with the whole library, each model's edfa_nf at the target gain, the lists
     read from the element and the adjacent ROADMs, the targets and the choice; Trace_AmpSelection judges the choice.
-    Auto-designed multiband amplifiers: OneGroup, EveryMemberCoversItsBand.
+    Auto-designed multiband amplifiers: OneGroup, EveryMemberCoversItsBand.  meshV2 with placeholders is also designed
+    with the SI band equal to the default amplifier band, and with every model allowed at 5 dBm per channel.
 """
 import inspect
 import json
